@@ -9,7 +9,7 @@ import numpy as np
 from ..core import MachineryError
 from ..util import as_list, tmp_dir
 from .. import datasets as D
-from .c05 import ints
+from .c05 import ints, ObservationError
 
 IMPORTS = ('phylib.io.model',)
 Q = 256
@@ -93,7 +93,8 @@ def records_for(ctx, d, rng, k, rid0):
                       else m.clusters_waveforms_durations)
                 dur = np.asarray(du) * ds['rate'] / 1000.0
                 if not np.array_equal(dur, np.rint(dur)):
-                    raise MachineryError('durations are not whole samples: %r' % (dur,))
+                    raise ObservationError('durations are not whole samples although every waveform is sampled '
+                                           'on the grid: %r (rate %r)' % (dur, ds['rate']))
                 recs.append(dict(id=rid0 + len(recs), kind='peaks', use=use, W=ints(W),
                                  channels=as_list(ch), dur=ints(dur)))
         with ctx.guard('depths', dict(dataset=k)):
@@ -106,12 +107,37 @@ def records_for(ctx, d, rng, k, rid0):
     return recs
 
 
+def long_depths_record(ctx, d, rng, rid):
+    """get_depths works in batches of 50000 spikes: one long recording, judged on the spikes around every batch
+    boundary, at both ends and on a random sample (the definition is per spike)."""
+    ns = 100000 + int(rng.randint(1, 40))
+    nt, nc = 3, 4
+    ds = D.random_dense(rng, ns=8, nt=nt, nc=nc, nsw=3, features=True)
+    ds['samples'] = np.cumsum(rng.randint(0, 3, size=ns)) + 3
+    ds['st'] = rng.randint(0, nt, size=ns)
+    ds['amps'] = rng.randint(1, 5, size=ns).astype(float)
+    ds['pcf'] = rng.randint(-2, 4, size=(ns, 3, ds['pcind'].shape[1])).astype(float)
+    p = D.write_dataset(d / ('long%d' % rid), ds)
+    m = D.load(p)
+    try:
+        dep = np.asarray(m.get_depths())
+    finally:
+        m.close()
+    idx = sorted(set([0, 1, ns - 2, ns - 1] + [b + o for b in (50000, 100000) for o in (-2, -1, 0, 1, 2) if b + o < ns]
+                     + [int(x) for x in rng.randint(0, ns, size=40)]))
+    x = np.asarray(ds['pcf'])[idx, 0, :]
+    ys = np.asarray(ds['pos'])[np.asarray(ds['pcind'])[np.asarray(ds['st'])[idx]], 1]
+    if dep.shape[0] != ns:
+        raise ObservationError('get_depths returned %d values for %d spikes' % (dep.shape[0], ns))
+    return dict(id=rid, kind='depths', x=ints(x), ys=ints(ys), depthq=q(dep[idx]))
+
+
 def run(ctx):
     ctx.rule = ('M: bincount transcription of the per-id means (with minlength) = mean over the member '
                 'set, NaN exactly for ids without spikes, on all 2-template x 2-sample x 2-channel '
                 'waveform sets with <= 3 spikes. C->S: get_amplitudes_true (templates and clusters, unit '
                 'factors 1, 2, 0.5), templates/clusters_amplitudes, *_channels, *_waveforms_durations and '
-                'get_depths of real models over random dense datasets (ids without spikes at the first, a '
+                'get_depths (incl. a recording of > 100000 spikes: three batches) of real models over random dense datasets (ids without spikes at the first, a '
                 'middle and the LAST position, three whitening kinds, rates 2^k, clusters equal to or split '
                 'from templates) validated by the definitions; non-trivial = some id has no spikes or the '
                 'clusters differ from the templates.')
@@ -125,8 +151,13 @@ def run(ctx):
     rng = np.random.RandomState(ctx.seed + 9)
     recs = []
     with tmp_dir(ctx) as d:
-        for k in range(200 if ctx.quick else 1500):
+        for k in range(200 if ctx.quick else 9000):
             recs += records_for(ctx, d, rng, k, len(recs) + 1)
+            if ctx.abort:
+                return
+        for j in range(1 if ctx.quick else 4):
+            with ctx.guard('depths', dict(long_recording=j)):
+                recs.append(long_depths_record(ctx, d, rng, len(recs) + 1))
             if ctx.abort:
                 return
     ctx.evaluations = len(recs)
